@@ -602,6 +602,17 @@ func Run(r *evid.Run) {
 					_ = p.leader.Manager.VerifReconcile()
 					_ = p.follower.Manager.VerifReconcile()
 				}
+				if n%250 == 0 {
+					// fresh engines: the in-memory disks and Raft logs of hundreds of dropped tables go
+					p.close()
+					np, err := newPair(cache, limits)
+					if err != nil {
+						fmt.Println("INFRA: engine pair:", err)
+						r.Inconcl.Add(1)
+						return
+					}
+					p = np
+				}
 				if wkr == 0 && i%97 == 0 {
 					r.Sample(map[string]any{"schedule": c.Path, "max_message_size": c.MsgLimit, "log_cache_size": cache, "outcome": outcome})
 				}
